@@ -227,6 +227,17 @@ class Table(Vector):
 		# Build column map
 		self._column_map = self._build_column_map()
 
+	def fingerprint(self) -> int:
+		"""
+		Fingerprint of the table's current contents.
+
+		A table is not told when one of its columns is written through a column
+		view, table item assignment or column replacement, so the memo inherited
+		from Vector would go stale.  Recompute from the columns' own (cached)
+		fingerprints on every call: O(number of columns).
+		"""
+		return self._compute_fingerprint_full()
+
 	def __len__(self):
 		if len(self._underlying) == 0:
 			return 0
